@@ -540,14 +540,16 @@ class FGen(gen.Gen):
             for attempt in range(6):
                 n_rules = len(self.rules)
                 snapshot = (dict(self.sig), list(self.concrete))
-                if attempt >= 3 and can_distinct:
+                if attempt >= 4 and can_distinct:
                     self.o['p_distinct'] = 1.0
-                maker(name)
+                # an empty predicate makes everything above it empty: after two free
+                # draws fall back to a plain projection of the predicates it must read
+                (maker if attempt < 2 else self.idb_simple)(name)
                 try:
                     n = len(self.evaluator(60000).rows(name))
                 except Exception:
                     n = cap + 1
-                if attempt == 5 or 0 < n <= cap or (n == 0 and self.chance(0.1)):
+                if attempt == 5 or 0 < n <= cap or (n == 0 and self.chance(0.03)):
                     if n > cap:
                         self.excl('kept_large_predicate')
                     return
@@ -557,6 +559,29 @@ class FGen(gen.Gen):
                           else 'regenerated_large_predicate')
         finally:
             self.o['p_distinct'] = saved
+
+    def idb_simple(self, name):
+        """P(exprs over v..) :- Must1(v..), Must2(w..): non-empty whenever the
+        predicates it reads are."""
+        s = self.new_sig(allow_composite=False)
+        env = {}
+        self.used, self.roots = set(), set()
+        self._sib_locals, self._agg_results = set(), []
+        body = [self.call(env, name=m, fresh_only=True) for m in self.must]
+        if not body:
+            body.append(self.call(env, fresh_only=True))
+        for k in self.must_consts:
+            v = self.newvar(env, self.consts[k])
+            self.roots.add(v)
+            body.append(('assign', v, ('fcall', k, ()), '=='))
+        head = [(f, self.expr(t, env, 1, allow_fcall=False)) for f, t in s['fields']]
+        val = self.expr(s['value'], env, 1, allow_fcall=False) if s['value'] else None
+        self.rng.shuffle(body)
+        self.rules.append(mk_rule(name, head, body, value=val,
+                                  distinct=self.chance(self.o['p_distinct'])))
+        self.sig[name] = s
+        self.concrete.append(name)
+        self.labels.add('plain_projection_fallback')
 
     def evaluator(self, budget=100000):
         return FunctorEval({'rules': self.rules, 'inj': self.inj,
@@ -577,6 +602,57 @@ class FGen(gen.Gen):
         finally:
             self.forced_sig = None
         self.everything.append(name)
+
+    def add_twin_facts(self, name, a):
+        """Fact predicate with the signature of `a` whose rows are variations of a's
+        rows (most values kept, so joins and constant filters of the functor still
+        match) but a different multiset."""
+        rng = self.rng
+        sig = self.sig[a]
+        try:
+            base = [r for r in self.evaluator().rows(a)
+                    if all(v is not None for v in r.values())]
+        except Exception:
+            base = []
+        if not base or not sig['fields']:
+            return self.add_edb(name, sig)
+        cols = [f for f, t in sig['fields']] + (['logica_value'] if sig['value'] else [])
+        types = [t for f, t in sig['fields']] + ([sig['value']] if sig['value'] else [])
+
+        def lit(v, t):
+            if t == 'R':
+                return ('rec', (('a', ('lit', v.get('a'))), ('b', ('lit', v.get('b')))))
+            if t in ('LN', 'LS'):
+                return ('lit', list(v))
+            return ('lit', v)
+        rows = []
+        for _ in range(rng.randint(1, self.o['max_rows'] + 1)):
+            src = rng.choice(base)
+            row = []
+            for c, t in zip(cols, types):
+                r = rng.random()
+                if r < 0.6:
+                    row.append(lit(src[c], t))
+                elif r < 0.8:
+                    row.append(lit(rng.choice(base)[c], t))
+                else:
+                    row.append(self.lit_of(t))
+            rows.append(tuple(row))
+        if rng.random() < 0.3:
+            rows.append(rng.choice(rows))              # a duplicate fact
+        if sorted(map(repr, rows)) == sorted(
+                repr(tuple(lit(r[c], t) for c, t in zip(cols, types))) for r in base):
+            rows.append(tuple(self.lit_of(t) for t in types))
+        for row in rows:
+            head = tuple((f, v) for (f, t), v in zip(sig['fields'], row))
+            for (f, t), v in zip(sig['fields'], row):
+                self.colvals.setdefault((name, f), []).append(v)
+            self.rules.append(mk_rule(name, head, (),
+                                      value=row[-1] if sig['value'] else None))
+        self.sig[name] = {'fields': tuple((f, t) for f, t in sig['fields']),
+                          'value': sig['value']}
+        self.everything.append(name)
+        self.labels.add('twin_facts_from_argument_rows')
 
     def add_const(self, name, t=None, expr=None):
         t = t or self.rng.choice(gen.ATOMS)
@@ -674,7 +750,10 @@ class FGen(gen.Gen):
         originals = [p for p in self.everything if p not in [m[0] for m in self.makes]
                      and p not in self.consumers]
         if r < 0.55:
-            self.add_edb(name, sig)
+            if rng.random() < 0.75:
+                self.add_twin_facts(name, a)
+            else:
+                self.add_edb(name, sig)
         elif r < 0.8:
             # derived twin that reads the argument itself
             self.define(name, [a], rng.sample(originals, min(len(originals), 1)),
